@@ -38,6 +38,7 @@ func runC10(rt *rapid.T, st *stats.Collector) {
 		readTO:    rapid.SampledFrom([]time.Duration{0, 0, 50 * time.Millisecond, 50 * time.Millisecond, ch.NoTimeout}).Draw(rt, "read-timeout"),
 		prior:     rapid.SampledFrom([]int{0, 0, 0, 1, 2}).Draw(rt, "earlier-exception-queries"),
 	}
+	drawGatedRevs(rt, &sc)
 	effRead := sc.readTO
 	if effRead == 0 {
 		effRead = ch.DefaultReadTimeout
